@@ -4,6 +4,7 @@
    nl_array_slice) and NV.Runtime.Gc (gc.c without children); the ARC code the transpiler emits is not modelled. *)
 From Coq Require Import NArith ZArith List Bool.
 From NV Require Import Base.Bytes Runtime.DynArray Runtime.DynArrayProofs Runtime.Gc Runtime.GcProofs gen.RtParams.
+From NV Require Import Runtime.FmtSb Runtime.FmtSbProofs gen.FmtSbParams.
 Import ListNotations.
 
 (* the measured constants satisfy what the proofs need: INITIAL_CAPACITY >= 1, GROWTH_FACTOR >= 2, the built-in element sizes fit the
@@ -224,3 +225,46 @@ Example C20_gc_nonvacuous :
   | _ => false
   end = true.
 Proof. vm_compute. reflexivity. Qed.
+
+(* ------------------------------------------------------------------------------------------------ the emitted string builder
+   nl_fmt_sb_* (src/stdlib_runtime.c emits it into every native program; println / to_string of arrays, structs and unions append
+   their pieces to it).  [fmtsb_params] is READ FROM THE CURRENT SOURCE by tools/gen/gen_fmtsb.py: the growth rule is the statement it
+   finds between "new_cap = ..." and realloc in nl_fmt_sb_ensure.  A source that grows once instead of looping gives GrowOnce and
+   breaks C20_sb_growth_loops (and the probe / native programs produce the failing input). *)
+Theorem C20_sb_growth_loops :
+  sb_mode fmtsb_params = GrowLoop /\ sb_factor fmtsb_params = 2%N /\ sb_slack fmtsb_params = 1%N /\
+  (0 < sb_default fmtsb_params)%N /\ (0 < sb_new_default fmtsb_params)%N /\
+  fmtsb_ensure_shape_ok = true /\ fmtsb_append_shape_ok = true /\ forallb (fun c => N.ltb 0 c) fmtsb_initial_caps = true.
+Proof. vm_compute. repeat split; reflexivity. Qed.
+Print Assumptions C20_sb_growth_loops.
+
+Lemma fmtsb_loop_params : loop_params fmtsb_params.
+Proof. destruct C20_sb_growth_loops as (A & B & C & D & E & _). unfold loop_params. auto. Qed.
+
+(* ensure establishes needed <= cap for every needed up to SIZE_MAX/2 + 1 = 2^63 (beyond that the C's size_t doubling wraps) *)
+Theorem C20_sb_ensure : forall s extra, (b_len s + extra + 1 <= 9223372036854775808)%N ->
+  exists s', ensure fmtsb_params s extra = SOk s' /\ (b_len s + extra + 1 <= b_cap s')%N /\
+             b_len s' = b_len s /\ b_text s' = b_text s /\ (b_cap s <= b_cap s')%N.
+Proof. exact (fun s extra => ensure_ok fmtsb_params s extra fmtsb_loop_params). Qed.
+Print Assumptions C20_sb_ensure.
+
+(* append = list concatenation, invariant len + 1 <= cap, no write outside the block, from a builder of any initial capacity *)
+Theorem C20_sb_append_is_concat : forall initial pieces, (N.of_nat (length (concat pieces)) + 1 <= 9223372036854775808)%N ->
+  exists s', append_all fmtsb_params (sb_new fmtsb_params initial) pieces = SOk s' /\ b_text s' = concat pieces /\
+             (b_len s' + 1 <= b_cap s')%N /\ b_len s' = N.of_nat (length (b_text s')).
+Proof.
+  intros initial pieces H.
+  destruct (append_all_is_concat fmtsb_params fmtsb_loop_params pieces (sb_new fmtsb_params initial) (sb_new_inv _ _ fmtsb_loop_params) H)
+    as (s' & A & B & C & D).
+  exists s'. auto.
+Qed.
+Print Assumptions C20_sb_append_is_concat.
+
+(* the model discriminates: with a growth rule that multiplies once (whatever the source then reads as), a 256-byte builder given one
+   piece of 600 bytes writes outside its block; with the looping rule the same history is fine *)
+Example C20_sb_grow_once_overflows :
+  append_all {| sb_mode := GrowOnce; sb_factor := 2; sb_default := 128; sb_slack := 1; sb_new_default := 128 |}
+             (sb_new fmtsb_params 256) [[91]%N; repeat 120%N 600] = SCrash /\
+  (exists s, append_all {| sb_mode := GrowLoop; sb_factor := 2; sb_default := 128; sb_slack := 1; sb_new_default := 128 |}
+             (sb_new fmtsb_params 256) [[91]%N; repeat 120%N 600] = SOk s /\ b_cap s = 1024%N).
+Proof. split; [vm_compute; reflexivity|eexists; vm_compute; split; reflexivity]. Qed.
